@@ -480,7 +480,8 @@ pub async fn canon(w: &World) -> String {
             if let Ok(Some(om)) = w.open_messages.get_open_message_with_single_signatures(&e).await {
                 let mut s: Vec<String> = om.single_signatures.iter().map(|s| s.party_id.clone()).collect();
                 s.sort();
-                oms.push(json!({"t": format!("{e:?}"), "c": om.is_certified, "x": om.is_expired, "s": s}));
+                let due = om.expires_at.map(|t| t <= chrono::Utc::now()).unwrap_or(false);
+                oms.push(json!({"t": format!("{e:?}"), "c": om.is_certified, "x": om.is_expired, "due": due, "s": s}));
             }
         }
     }
@@ -497,7 +498,9 @@ pub async fn canon(w: &World) -> String {
     }
     entities.sort_by_key(|v| v.to_string());
     let reg: Vec<(u64, Vec<usize>)> = w.registered_in_epoch.borrow().iter().map(|(e, s)| (*e, s.iter().copied().collect())).collect();
-    json!({"st": w.state(), "e": *tp.epoch, "i": tp.immutable_file_number, "certs": certs, "om": oms, "se": entities, "reg": reg}).to_string()
+    let mut buffered = w.raw_rows("select signed_entity_type_id, party_id from buffered_single_signature order by 1, 2");
+    buffered.sort();
+    json!({"st": w.state(), "e": *tp.epoch, "i": tp.immutable_file_number, "certs": certs, "om": oms, "se": entities, "reg": reg, "buf": buffered, "restarts": w.restarts.min(1)}).to_string()
 }
 
 /// C15 store invariants: every certificate verifies with its chain; at most one artifact per signed
